@@ -332,7 +332,19 @@ func (rn *c08run) compileStep(cc *eval.Config, host *OpHost, s Step, yield func(
 	if !pure && len(s.Plan.FailOps) == 0 && s.Plan.AbortAt == 0 {
 		for k := 0; k < 12; k++ {
 			host.CompileEnv = NewEnv(rn.ops, &Plan{})
-			e2, err2 := eval.Compile(cc, src)
+			var e2 *eval.Expr
+			var err2 error
+			var pan2 interface{}
+			func() {
+				defer func() { pan2 = recover() }()
+				e2, err2 = eval.Compile(cc, src)
+			}()
+			if pan2 != nil {
+				// nothing in a recompilation under an empty plan can panic on its
+				// own: an operator of ANOTHER compilation or configuration was run
+				out.Recompile = fmt.Sprintf("compile #1: %s\ncompile #%d panicked: %v", oneLine(out.Dump), k+2, pan2)
+				break
+			}
 			if err2 != nil {
 				out.Dump += "\n;; recompile " + strconv.Itoa(k) + " failed"
 				break
